@@ -41,7 +41,9 @@ Row(r) ==
             /\ Chk("C18.inscription.location", r.sat = i.sat /\ r.sp = i.sp, <<r.sat, r.sp, i.sat, i.sp>>)
             /\ Chk("C18.inscription.value",
                    IF holder \in {"lost", "unbound"} THEN r.value = 0 - 1 ELSE r.value = S.outs[holder].v, <<r.value, holder>>)
-            /\ Chk("C18.inscription.charms", ToSet(r.charms) = ToSet(i.effCharms), <<r.charms, i.effCharms>>)
+            \* /inscription reports the stored charms plus the derived `lost` charm; /r/inscription the stored charms
+            /\ Chk("C18.inscription.charms",
+                   ToSet(r.charms) = ToSet(IF r.route = "rinscription" THEN i.charms ELSE i.effCharms), <<r.route, r.charms, i.charms, i.effCharms>>)
             /\ (r.route = "inscription" =>
                   /\ Chk("C18.inscription.parents", r.parents = i.parents, <<r.parents, i.parents>>)
                   /\ Chk("C18.inscription.children", r.childCount = Len(i.children)
